@@ -24,6 +24,8 @@ type Env struct {
 	cur     *State
 	old     *State
 	loopPre *State
+	curParams bool // program-point clause (loop invariant, call-site): a reassigned parameter's name means its current value
+	loopHead *State // state at the head of the current iteration of the innermost enclosing loop (call-site clauses)
 	phiSub  map[*ssa.Phi]*SVal
 	at      *ssa.BasicBlock
 	atIdx   int // instruction index inside 'at' up to which definitions count (-1/0: phis only)
@@ -246,8 +248,24 @@ func (e *Env) eval(x Expr) *SVal {
 }
 
 func (e *Env) ident(name string) *SVal {
+	if e.curParams && e.f != nil && e.at != nil {
+		if _, isVar := e.vars[name]; isVar && e.f.isParamName(name) {
+			if v := e.f.resolveLocalOpt(name, e.at, e.atIdx, e.phiSub, true); v != nil {
+				return v
+			}
+		}
+	}
 	if v, ok := e.vars[name]; ok {
 		return v
+	}
+	if strings.HasPrefix(name, "$") {
+		if ty, ok := e.g.P.Specs.Ghosts[name[1:]]; ok {
+			if ty == "bool" {
+				return mkBool(e.g.heapGet(e.cur, "$ghost."+name[1:], SBool))
+			}
+			return scalar(tInt, KInt, e.g.heapGet(e.cur, "$ghost."+name[1:], SBV64))
+		}
+		e.fail("undeclared ghost variable %s", name)
 	}
 	switch name {
 	case "true":
@@ -777,6 +795,21 @@ func (e *Env) index(x *EIndex) *SVal {
 func (e *Env) slice(x *ESlice) *SVal {
 	g := e.g
 	v := e.eval(x.X)
+	if v.K == KArray {
+		// slicing an addressable array (a field, an element): slice the location, as Go does
+		func() {
+			defer func() {
+				if r := recover(); r != nil {
+					if _, ok := r.(specErr); !ok {
+						panic(r)
+					}
+				}
+			}()
+			if p := e.evalLoc(x.X); p != nil && p.K == KPtr {
+				v = p
+			}
+		}()
+	}
 	if v.K == KPtr {
 		if pt, ok := v.T.Underlying().(*types.Pointer); ok {
 			if at, ok := pt.Elem().Underlying().(*types.Array); ok {
@@ -1008,6 +1041,14 @@ func (e *Env) call(x *ECall) *SVal {
 			}
 			sub := *e
 			sub.cur = e.old
+			sub.curParams = false
+			return sub.eval(x.Args[0])
+		case "iter": // iter(x): x as it was at the start of the current loop iteration
+			if e.loopHead == nil {
+				e.fail("iter() outside a loop")
+			}
+			sub := *e
+			sub.cur = e.loopHead
 			return sub.eval(x.Args[0])
 		case "pre":
 			if e.loopPre == nil {
@@ -1015,6 +1056,7 @@ func (e *Env) call(x *ECall) *SVal {
 			}
 			sub := *e
 			sub.cur = e.loopPre
+			sub.curParams = false
 			return sub.eval(x.Args[0])
 		case "len", "cap":
 			v := e.eval(x.Args[0])
@@ -1244,7 +1286,7 @@ func (e *Env) lemmaFormula(lm *Lemma, args []Expr) *SVal {
 	if len(args) != len(lm.Params) {
 		e.fail("lemma %s expects %d arguments", lm.Name, len(lm.Params))
 	}
-	lenv := &Env{g: g, pkg: g.P.typesPkg(lm.PkgPath), vars: map[string]*SVal{}, cur: e.cur, old: e.old, loopPre: e.loopPre, depth: e.depth + 1}
+	lenv := &Env{g: g, pkg: g.P.typesPkg(lm.PkgPath), vars: map[string]*SVal{}, cur: e.cur, old: e.old, loopPre: e.loopPre, loopHead: e.loopHead, depth: e.depth + 1}
 	for i, a := range args {
 		v := e.eval(a)
 		pt := lenv.resolveType(lm.Params[i].Type)
@@ -1335,7 +1377,7 @@ func (e *Env) callPure(pf *PureFn, args []Expr) *SVal {
 	if e.depth > 40 {
 		e.fail("pure function expansion too deep (recursion?) in %s", pf.Name)
 	}
-	penv := &Env{g: g, f: nil, pkg: g.P.typesPkg(pf.PkgPath), vars: map[string]*SVal{}, cur: e.cur, old: e.old, loopPre: e.loopPre, depth: e.depth + 1,
+	penv := &Env{g: g, f: nil, pkg: g.P.typesPkg(pf.PkgPath), vars: map[string]*SVal{}, cur: e.cur, old: e.old, loopPre: e.loopPre, loopHead: e.loopHead, depth: e.depth + 1,
 		mode: e.mode, pol: e.pol, guard: e.guard, noInst: e.noInst, qbuild: e.qbuild}
 	var argVals []*SVal
 	argEnv := *e
@@ -1593,6 +1635,12 @@ func (e *Env) evalMod(x Expr) []*modItem {
 		if x.Name == "everything" {
 			return []*modItem{{kind: "star", text: txt}}
 		}
+		if strings.HasPrefix(x.Name, "$") {
+			if ty, ok := g.P.Specs.Ghosts[x.Name[1:]]; ok {
+				return []*modItem{{kind: "ghost", fam: "$ghost." + x.Name[1:], text: txt, base: ty}}
+			}
+			e.fail("undeclared ghost variable %s", x.Name)
+		}
 	case *ECall:
 		if id, ok := x.Fun.(*EIdent); ok && id.Name == "pointee" && len(x.Args) == 1 {
 			// pointee(v): the variable an interface value points to, where the dynamic type is a known
@@ -1704,6 +1752,13 @@ func (g *Gen) locItems(p *SVal, t types.Type, txt string) []*modItem {
 // havocItem applies "this location may have changed" to st.
 func (g *Gen) havocItem(st *State, reach string, it *modItem) {
 	switch it.kind {
+	case "ghost":
+		if it.base == "bool" {
+			g.heapSet(st, it.fam, SBool, g.fresh("ghost", SBool))
+		} else {
+			g.heapSet(st, it.fam, SBV64, g.fresh("ghost", SBV64))
+		}
+		return
 	case "star":
 		// caller replaces the state
 		panic(specErr("modifies everything must be handled by the caller"))
@@ -1795,7 +1850,23 @@ func (f *Frame) resolveAllocLocal(name string, at *ssa.BasicBlock) *SVal {
 	return nil
 }
 
+func (f *Frame) isParamName(name string) bool {
+	if f.fn == nil {
+		return false
+	}
+	for _, p := range f.fn.Params {
+		if p.Name() == name {
+			return true
+		}
+	}
+	return false
+}
+
 func (f *Frame) resolveLocal(name string, at *ssa.BasicBlock, atIdx int, phiSub map[*ssa.Phi]*SVal) *SVal {
+	return f.resolveLocalOpt(name, at, atIdx, phiSub, false)
+}
+
+func (f *Frame) resolveLocalOpt(name string, at *ssa.BasicBlock, atIdx int, phiSub map[*ssa.Phi]*SVal, skipParams bool) *SVal {
 	if f.fn == nil {
 		return nil
 	}
@@ -1805,7 +1876,7 @@ func (f *Frame) resolveLocal(name string, at *ssa.BasicBlock, atIdx int, phiSub 
 		}
 	}
 	for _, p := range f.fn.Params {
-		if p.Name() == name {
+		if p.Name() == name && !skipParams {
 			if v, ok := f.vals[p]; ok {
 				return v
 			}
